@@ -378,6 +378,10 @@ fn gen_ops<E: Elt>(rng: &mut Rng) -> Sched<E> {
         *next_idx += 3;
         s.prep.extend(row);
     };
+    // multiplicity patterns beyond "everything reads once": creators (`+reads` for b / out,
+    // `-reads` in the reader columns of a / c) and off-bus operands; the constraint oracles do not
+    // look at them, the layout correspondence with the Lean schedule model does
+    let vary = rng.chance(1, 2);
     for blk in 0..nblocks {
         if rng.chance(2, 3) {
             // a Horner chain
@@ -398,6 +402,20 @@ fn gen_ops<E: Elt>(rng: &mut Rng) -> Sched<E> {
                 if j + 1 < len && rng.chance(7, 8) {
                     let n = s.prep.len();
                     s.prep[n - 13 + 10] = F::ZERO;
+                }
+            }
+        }
+        if vary {
+            let nrows = s.prep.len() / 13;
+            for r in 0..nrows {
+                if rng.chance(1, 4) {
+                    s.prep[r * 13 + 9] = F::from_u64(rng.below(4));
+                }
+                if rng.chance(1, 5) {
+                    s.prep[r * 13 + 11] = if rng.chance(1, 2) { F::ZERO } else { -F::from_u64(1 + rng.below(3)) };
+                }
+                if rng.chance(1, 5) {
+                    s.prep[r * 13 + 12] = if rng.chance(1, 2) { F::ZERO } else { -F::from_u64(1 + rng.below(3)) };
                 }
             }
         }
@@ -509,7 +527,7 @@ fn relations_hold<E: Elt>(lanes: usize, kmax: usize, main: &RowMajorMatrix<F>, p
     true
 }
 
-fn sched_case<E: Elt>(rng: &mut Rng, kind: Kind, hist: &mut BTreeMap<String, u64>, violations: &mut Vec<Value>, tampers: usize) -> usize {
+fn sched_case<E: Elt>(rng: &mut Rng, kind: Kind, hist: &mut BTreeMap<String, u64>, violations: &mut Vec<Value>, tampers: usize, lines: &mut (Vec<String>, Vec<String>)) -> usize {
     let d = E::D;
     let lanes = 1 + rng.usize(3);
     let kmax = 2 + rng.usize(5);
@@ -535,6 +553,17 @@ fn sched_case<E: Elt>(rng: &mut Rng, kind: Kind, hist: &mut BTreeMap<String, u64
     };
     let nh = s.kinds.iter().filter(|k| **k == AluOpKind::HornerAcc).count();
     *hist.entry(format!("sched.horner_ops.{}", nh.min(9))).or_default() += 1;
+    // correspondence with lean/P3R/Model/AluSchedule.lean: the scheduled preprocessed matrix
+    // (trailing all-zero rows — padding — trimmed on both sides)
+    {
+        let pw = prep.width();
+        let mut rows: Vec<&[F]> = prep.values.chunks(pw).collect();
+        while rows.last().is_some_and(|r| r.iter().all(|x| *x == F::ZERO)) {
+            rows.pop();
+        }
+        lines.0.push(format!("sched {lanes} {kmax} | {}", s.prep.iter().map(|x| x.as_canonical_u64().to_string()).collect::<Vec<_>>().join(" ")));
+        lines.1.push(format!("m {} {}", rows.len(), rows.iter().map(|r| r.iter().map(|x| x.as_canonical_u64().to_string()).collect::<Vec<_>>().join(" ")).collect::<Vec<_>>().join(" ; ")));
+    }
     if main.height() != prep.height() {
         violations.push(json!({"property":"C11","kind":"height-mismatch","class":"height-mismatch","replay":desc}));
         return 0;
@@ -599,13 +628,16 @@ pub fn sched_main(args: &crate::Args) {
     let mut hist: BTreeMap<String, u64> = BTreeMap::new();
     let mut violations: Vec<Value> = vec![];
     let mut evals = 0usize;
+    let mut lines: (Vec<String>, Vec<String>) = (vec![], vec![]);
     for i in 0..n {
         evals += if i % 3 == 0 {
-            sched_case::<E4>(&mut rng, Kind::Bin(11), &mut hist, &mut violations, tampers)
+            sched_case::<E4>(&mut rng, Kind::Bin(11), &mut hist, &mut violations, tampers, &mut lines)
         } else {
-            sched_case::<F>(&mut rng, Kind::Base, &mut hist, &mut violations, tampers)
+            sched_case::<F>(&mut rng, Kind::Base, &mut hist, &mut violations, tampers, &mut lines)
         };
     }
+    std::fs::write(format!("{out}/alusched.cases"), lines.0.join("\n") + "\n").unwrap();
+    std::fs::write(format!("{out}/alusched.impl"), lines.1.join("\n") + "\n").unwrap();
     let report = json!({"evaluations": evals, "cases": n, "hist": hist, "violations": violations, "seed": seed});
     std::fs::write(format!("{out}/alusched.report.json"), serde_json::to_string_pretty(&report).unwrap()).unwrap();
     println!("alusched: cases={} evals={} violations={}", n, evals, violations.len());
